@@ -26,7 +26,7 @@ def _imports():
 
 
 KINDS = ["xor_add", "mul", "div", "mod", "sdiv", "addmod", "mulmod", "exp", "exp", "bytes_len", "bytes_tail", "arr_sum", "two_args", "storage", "signed", "shift",
-         "nested_assert", "conj3", "arr_loop", "loop_guard"]
+         "nested_assert", "conj3", "arr_loop", "loop_guard", "smod_zero", "mod_zero", "div_zero", "sdiv_zero", "addmod_zero", "mulmod_zero"]
 
 
 def case(seed, idx, res, tier):
